@@ -4,6 +4,7 @@ import OAuth2Model.Driver.Poll
 import OAuth2Model.Driver.AuthUrl
 import OAuth2Model.Driver.Pkce
 import OAuth2Model.Driver.UrlT
+import OAuth2Model.Driver.SecEq
 
 def dispatch (line : String) : String :=
   match (line.trimAscii.toString.splitOn " ").filter (· ≠ "") with
@@ -19,6 +20,7 @@ def dispatch (line : String) : String :=
     | "pkce_flow" => Drv.PkceOp.runFlow args
     | "rand" => Drv.PkceOp.runRand args
     | "url" => Drv.UrlOp.run args
+    | "seceq" => Drv.SecEqOp.run args
     | _ => "bad-op"
 
 partial def loop (h : IO.FS.Stream) (out : IO.FS.Stream) : IO Unit := do
